@@ -118,7 +118,7 @@ Section Data.
   Theorem handle_connack_J (s : state) now c g :
     WF cfg s -> pcq s -> PL s -> sess_applied s (Connack c) = true -> J s g ->
     J (h_s (handle_connack s now c))
-      (mkG (ca_session_present c) (g_sub g) (if ca_session_present c then g_ph g else restart_ph (g_ph g))).
+      (mkG (ca_session_present c) (g_sub g) (sess_ph (ca_session_present c) (g_ph g))).
   Proof.
     intros [HW HP] Hq HPL Hs HJ. unfold InboundLoop.sess_applied in Hs. unfold Model.handle_connack.
     apply andb_true_iff in Hs. destruct Hs as [Hs Hv]. apply andb_true_iff in Hs. destruct Hs as [Est Hrc].
@@ -145,7 +145,7 @@ Section Data.
     { unfold s2; destruct (cf_drain_one cfg); cbn; splits; auto. }
     destruct F2 as (G1 & G2 & G3 & G4 & G5 & G6 & G7 & G8 & G9 & G10 & G11).
     assert (HJ' : J (r_s (apply_session cfg s2 (ca_session_present c)))
-                    (mkG (ca_session_present c) (g_sub g) (if ca_session_present c then g_ph g else restart_ph (g_ph g)))).
+                    (mkG (ca_session_present c) (g_sub g) (sess_ph (ca_session_present c) (g_ph g)))).
     { apply (session_J cfg i s s2 g (ca_session_present c)); auto; try congruence. unfold waiting. auto. }
     destruct (r_out (apply_session cfg s2 (ca_session_present c))); exact HJ'.
   Qed.
